@@ -259,10 +259,12 @@ class Run:
             raise RuntimeError("git %s failed: %s" % (args, p.stderr.decode(errors="replace")))
         return p
 
-    def wrapped(self, args, cwd=None):
+    def wrapped(self, args, cwd=None, extra_env=None):
         """git through the git-ai proxy (wrapper mode) or plain git with the managed hooks (hooks mode)"""
         env = dict(self.env)
         env.update(self._dates())
+        if extra_env:
+            env.update(extra_env)
         if self.mode == "hooks":
             exe = "git"
         else:
@@ -856,6 +858,29 @@ class Run:
 
     def act_CherryPick(self, act):
         p = self.wrapped(["cherry-pick", self.c2sha[act["c"]]])
+        if p.returncode != 0:
+            self.plain(["cherry-pick", "--abort"], check=False)
+            raise Divergent("cherry-pick stopped")
+        self._expect(act)
+
+    def act_IRebase(self, act):
+        todo = os.path.join(self.dir, "todo.txt")
+        with open(todo, "w") as fh:
+            for grp in act["plan"]:
+                for j, c in enumerate(grp):
+                    fh.write("%s %s\n" % ("pick" if j == 0 else "fixup", self.c2sha[c]))
+        ed = os.path.join(self.dir, "seqed.sh")
+        with open(ed, "w") as fh:
+            fh.write("#!/bin/sh\ncp %s \"$1\"\n" % todo)
+        os.chmod(ed, 0o755)
+        p = self.wrapped(["rebase", "-q", "-i", "HEAD~%d" % act["n"]], extra_env={"GIT_SEQUENCE_EDITOR": ed})
+        if p.returncode != 0:
+            self.plain(["rebase", "--abort"], check=False)
+            raise Divergent("interactive rebase stopped")
+        self._expect(act)
+
+    def act_CherryPickMany(self, act):
+        p = self.wrapped(["cherry-pick"] + [self.c2sha[c] for c in act["cs"]])
         if p.returncode != 0:
             self.plain(["cherry-pick", "--abort"], check=False)
             raise Divergent("cherry-pick stopped")
